@@ -166,6 +166,30 @@ def save_mesh_contract():
     return Contract('solver::save_mesh', PROP, frame=lambda C: [('solver.file_number_', [C.this.ref])], assumed=True, name='solver::save_mesh (writes files and file_number_ only)')
 
 
+def pre_iter_renumber(C):
+    o = C.old
+    k = val(C, 'local_cell_id'); lst = o.sub(C.this, 'solver.cell_lst_')
+    return [('index-in-range', z3.And(k >= 0, k < o.len(lst))), ('cell-non-null', o.at(lst, k, 'int') > 0)]
+
+
+def post_iter_renumber(C):
+    o, n = C.old, C.new
+    k = val(C, 'local_cell_id'); lst = o.sub(C.this, 'solver.cell_lst_')
+    return [('position-index-is-the-list-position', n.f(o.at(lst, k, 'int'), 'cell.local_id_') == k)]
+
+
+def havoc(qn):
+    return Contract(qn, PROP, frame=lambda C: [('*', None)], name=qn + ' (any effect)')
+
+
+def post_iter_structure(C):
+    """the renumbering loop is entered after the removal on every normal path"""
+    if C.outcome != 'loop-entry': return []
+    g = C.post_state.ghost
+    return [('removal-precedes-the-renumbering', g.get('removal_count', z3.IntVal(0)) == 1),
+            ('renumbering-starts-at-the-first-position', val(C, 'local_cell_id', C.post_state) == 0)]
+
+
 def build(reg, cfg):
     reg.add(Contract('solver::solver', PROP, pre=pre_ctor_ids, post=post_ctor_ids, slice_loop=0, name='solver::solver::<id loop body>'))
     reg.add(Contract('cell_divider::run', PROP, pre=pre_division_body, post=post_division_body, slice_loop=0, use=[divide_contract()], safety={'bounds'},
@@ -176,6 +200,15 @@ def build(reg, cfg):
     reg.add_loop(LoopContract('cell_divider::run', 1, lambda L: [], modifies=['cell.local_id_']))
     reg.add(Contract('solver::run_iteration', PROP, post=post_counter, prefix_loop=0, setup=setup_solver,
                      use=[save_mesh_contract(), divide_contract(), remove_index_contract()], name='solver::run_iteration::<division step, id counter>'))
+    reg.add(Contract('solver::run_iteration', PROP, pre=pre_iter_renumber, post=post_iter_renumber, slice_loop=3, safety={'bounds'},
+                     name='solver::run_iteration::<renumbering after removal, loop body>'))
+    hv = [havoc(q) for q in ('solver::save_mesh', 'cell_divider::run', 'cell::update_face_types', 'local_mesh_refiner::refine_meshes', 'contact_model_abstract::run',
+                             'cell::special_polarization_update', 'cell::apply_internal_forces', 'abstract_statistics_writer::write_data',
+                             'time_integration_scheme::update_nodes_positions')]
+    for k in range(3):
+        reg.add_loop(LoopContract('solver::run_iteration', k, lambda L: [], modifies=['*']))
+    reg.add(Contract('solver::run_iteration', PROP, post=post_iter_structure, prefix_loop=3, use=hv,
+                     name='solver::run_iteration::<removal then renumbering>'))
     # contact couplings store (position index of the partner cell, node id): the C07 contract of the per-pair rule
     sub = __import__('spec').Registry()
     C07.build(sub, cfg)
@@ -183,3 +216,22 @@ def build(reg, cfg):
         if 'resolve_contact' in c.name:
             c.prop = PROP; c.name = c.name + ' [as in C07: couplings designate a node of the partner cell by its position index]'
             reg.add(c)
+
+
+# ------------------------------------------------------------------------------------------------ native replay (population level)
+EXPLANATION = ("Contracts on the places where identities are created and where the population list changes: the id loop of the solver constructor "
+               "(arbitrary iteration: persistent id = position index = counter value, counter advances); cell_divider::run - an arbitrary "
+               "iteration of the division loop with divide_cell by contract (nullopt or two fresh cells): daughters get the next two unused "
+               "ids, the counter advances by two, daughters are appended, the mother's position is scheduled for removal, earlier list entries "
+               "are kept, a failed division changes nothing; an arbitrary iteration of the renumbering loop sets local_id_ to the list "
+               "position; solver::run_iteration with cell_divider::run inlined: the caller's id counter advances by two per scheduled removal "
+               "(loop invariant on the solver's own field, so a counter passed by value is refuted) and never decreases; after the removal of "
+               "small cells the renumbering loop is entered (structure contract) and its body re-establishes local_id_ == position; the "
+               "per-pair contact rule stores (position index of the partner cell, node id of a node of the visited face) as coupling (C07 "
+               "contract re-run). Ids are unique and never reused because every id handed out is the current value of a counter that only grows.")
+ASSUMPTIONS = ["divide_cell returns nullopt or two fresh cells and does not touch the population list (C09)",
+               "std::remove_if/erase and remove_index shrink the list without inserting (standard / own contract); save_mesh writes only file_number_ and files",
+               "sequential semantics of the parallel division loop (the push_back inside '#pragma omp parallel for' is a data race: C15, not applicable)",
+               "virtual calls are dispatched over every class of the AST that can be the dynamic type (closed world)"]
+UNVERIFIED = ["face-type index of a face vs number of face types of its cell type (polarisation writes face types 1/2): not under contract",
+              "owner_cell_ of faces after copies of cells (cell copy constructor / get_cell_same_type)", "contact model 2 stores couplings under get_local_id() but looks them up with get_id()"]
